@@ -35,7 +35,9 @@ type Config struct {
 	MaxAttempts int      `json:"max_attempts"`
 	ReadMax     int      `json:"read_max"`
 	W           Weights  `json:"w"`
-	Enum        string   `json:"enum,omitempty"` // description of an enumerated case (C06)
+	Enum        string   `json:"enum,omitempty"`         // description of an enumerated case (C06)
+	IOSameHost  bool     `json:"io_same_host,omitempty"` // all /io attempts come from one remote address
+	LogPark     bool     `json:"log_park,omitempty"`     // hold callers inside their log calls when the broker's lock turns out to be free there
 }
 
 // Weights are the relative frequencies of the action kinds.
@@ -95,8 +97,11 @@ type half struct {
 	proxyEnded  bool // seen at release park
 
 	// C03/C11 attribution of plain output (output halves)
-	plainLo, plainHi int // receive indexes [lo,hi) of the plain CLines sent by this half; hi = -1 while open
-	judged           bool // admission outcome compared with the model
+	plainLo, plainHi int   // receive indexes [lo,hi) of the plain CLines sent by this half; hi = -1 while open
+	judged           bool  // admission outcome compared with the model
+	gid              int64 // goroutine that runs this half of the call
+	logPark          *park // parked inside a log call with the broker's lock free
+	logParked        bool  // ... has been, in this lock section
 	completeChecked  bool
 }
 
@@ -137,6 +142,7 @@ func (a *attempt) halves() []*half {
 }
 
 type park struct {
+	gid  int64
 	site string
 	h    *half // nil for shutdown
 	ch   chan struct{}
@@ -171,6 +177,7 @@ type generation struct {
 	ready      bool
 	readyStep  int
 	readyBy    *half
+	readySeen  bool
 	endedBy    *half
 	ended      bool
 	endStep    int
@@ -285,11 +292,13 @@ type sim struct {
 
 	feeder *feeder
 
-	atts     []*attempt
-	parks    []*park
-	busy     *half // half inside a lock section
-	shutPark *park
-	shutDone bool
+	atts      []*attempt
+	parks     []*park
+	busy      *half // half inside a lock section (top of busyStack)
+	busyStack []*half
+	lock      *sync.Mutex // the broker's own lock (log-park runs only)
+	shutPark  *park
+	shutDone  bool
 
 	m model
 
@@ -336,6 +345,8 @@ type sim struct {
 	leakDue      bool
 	tearingDown  bool
 	plainChecked int
+	noticeSeen   int
+	goneOpen     int
 	shutdownStep int
 }
 
